@@ -115,9 +115,9 @@ CLAIMS = {
     },
     "C12": {
         "engine": "V+K+F",
-        "technique": "Verus contracts on the extracted Span::expand and Chunk::expand_span; Kani full-domain contract on combine_spans",
-        "text": "Proof: Span::expand keeps the start fields and takes end line/column/range end from the other span; Chunk::expand_span returns None iff an endpoint instruction has no span and otherwise a span that starts where the first starts and ends where the last ends; combine_spans returns the least range covering both.",
-        "note": "Line/column bookkeeping in the tokenizer, report_target and SourceLocation slicing are not decided; get_span is a trusted declaration; derived Clone of Span assumed to return an equal value.",
+        "technique": "Verus contracts on the extracted Span::expand, Chunk::expand_span and SourceLocation::new (the latter over the character-sequence model of str: every slice offset must be proved a character boundary); Kani full-domain contract on combine_spans; frame audit of span-less emit sites",
+        "text": "Proof: Span::expand keeps the start fields and takes end line/column/range end from the other span; Chunk::expand_span returns None iff an endpoint instruction has no span and otherwise a span that starts where the first starts and ends where the last ends; combine_spans returns the least range covering both; SourceLocation::new, for every source and every span that starts on an existing line: picks exactly that line (newline trimmed), slices only at line starts, and builds the marker line as one blank (a tab under a tab) per CHARACTER before the start column followed by end_col - start_col carets (one when the span is empty), never panicking.",
+        "note": "Line/column bookkeeping in the tokenizer (that a span's start line exists is SourceLocation::new's precondition) and report_target are not decided; get_line_starts and get_span are trusted declarations; derived Clone of Span assumed to return an equal value; the span audit (engine F) is an inventory, not a proof.",
         "design_ref": "DESIGN.md section 4 C12",
     },
     "C10": {
